@@ -373,6 +373,25 @@ def ekf(chk, prog):
         return all_of(*outs)
     chk.ob("FEEDBACK.jacobian", fd.ref, "dhdq('normal') == d(E_hom(q)^T [a_ref; m_ref]) / dq", jac, construct="measurement Jacobian", **kw)
 
+    def jac_acc():
+        # the accelerometer-only architecture (with_mag=False) linearises the same measurement model restricted to gravity, for ANY reference (ENU's +z, NED's -z)
+        qf = sym_vec("eq", 4, "wxyz")
+        it = Interp(prog)
+        obj = it.make_obj(F + "ekf.py::EKF", a_ref=aref, m_ref=mref, mag=None)
+        H = to_obj(it.run(fd, [qf], {"mode": "normal", "with_mag": False}, self_obj=obj))
+        w, x, y, z = qf
+        s = w * w + x * x + y * y + z * z
+        Ehom = E_ref(qf) * s
+        hh = Ehom.T @ aref
+        if H.shape != (3, 4):
+            return (False, "dhdq(with_mag=False) has shape %s, expected (3, 4)" % (H.shape,))
+        outs = []
+        for i in range(3):
+            for j, s_ in enumerate(("eqw", "eqx", "eqy", "eqz")):
+                outs.append(eq(H[i, j], hh[i].deriv(s_), "H[%d,%d]" % (i, j)))
+        return all_of(*outs)
+    chk.ob("FEEDBACK.jacobian", fd.ref + "::with_mag=False", "dhdq('normal', with_mag=False) == d(E_hom(q)^T a_ref) / dq", jac_acc, construct="measurement Jacobian (IMU)", **kw)
+
     def model():
         q = unit_syms("cq")
         it = Interp(prog)
@@ -771,5 +790,9 @@ def run(chk, prog, tier):
     aqua_equilibrium(chk, prog)
     aqua_short_arc(chk, prog)
     aqua_gain_input(chk, prog)
+    # AQUA's adaptive gain is a function of the current sample: fed back into itself it can only shrink (factor <= 1), and once a single hard acceleration has
+    # driven it to 0 the filter never corrects again - no convergence from any initial orientation (C13's RECOMPUTED rule, shared; round 9)
+    from props.c13 import recomputed_rule
+    recomputed_rule(chk, prog)
     canaries(chk, prog)
     return __doc__
